@@ -4,7 +4,9 @@ Decided: upload_pack is started only from Worker::_process, only after
 Worker::is_authorized returned Ok for the same requester and the repository id
 parsed from the request header; is_authorized returns Ok only if the seeding
 policy is not `block` and the identity document is visible to the requester;
-Doc::is_visible_to is true only for public repos, allow-listed peers or delegates."""
+Doc::is_visible_to is true only for public repos, allow-listed peers or delegates. 
+`Config::is_seeding` is accepted in place of the block test only while it is itself
+the policy-row lookup."""
 import re
 
 from .. import cfg, rules, flow
